@@ -82,9 +82,12 @@ class _Resolver(ast.NodeTransformer):
 
 
 def _constlike(e):
-    """Constant, or a dotted name of a class-level constant / enum member (Otype.UNARY, Keyword.CASE): compared by spelling."""
+    """Constant, tuple of such, or a dotted name of a class-level constant / enum member (Otype.UNARY, Keyword.CASE):
+    compared by spelling."""
     if isinstance(e, ast.Constant):
         return True
+    if isinstance(e, ast.Tuple):
+        return all(_constlike(x) for x in e.elts)
     d = dotted_name(e)
     return d is not None and "." in d and d.split(".")[0][:1].isupper() and "@" not in d
 
@@ -104,6 +107,9 @@ class _Simplifier(ast.NodeTransformer):
                 if norm(k) == key:
                     return v
             return n.args[1] if len(n.args) == 2 else ast.Constant(value=None)
+        if isinstance(f, ast.Name) and f.id == "str" and len(n.args) == 1 and not n.keywords and isinstance(n.args[0], ast.Constant) \
+                and isinstance(n.args[0].value, (int, str)) and not isinstance(n.args[0].value, bool):
+            return ast.Constant(value=str(n.args[0].value))
         if isinstance(f, ast.Name) and f.id == "getattr" and len(n.args) == 2 and isinstance(n.args[1], ast.Constant) and isinstance(n.args[1].value, str) \
                 and n.args[1].value.isidentifier():
             return ast.Attribute(value=n.args[0], attr=n.args[1].value, ctx=ast.Load())
@@ -124,8 +130,42 @@ class _Simplifier(ast.NodeTransformer):
             return n.value.elts[n.slice.value]
         return n
 
+    def visit_BinOp(self, n):
+        self.generic_visit(n)
+        if isinstance(n.left, ast.Constant) and isinstance(n.right, ast.Constant) and isinstance(n.op, (ast.Add, ast.Mult, ast.Sub)):
+            a, b = n.left.value, n.right.value
+            try:
+                if isinstance(n.op, ast.Add) and type(a) is type(b) and isinstance(a, (str, int, float)) and not isinstance(a, bool):
+                    return ast.Constant(value=a + b)
+                if isinstance(n.op, ast.Sub) and isinstance(a, (int, float)) and isinstance(b, (int, float)) and not isinstance(a, bool) and not isinstance(b, bool):
+                    return ast.Constant(value=a - b)
+                if isinstance(n.op, ast.Mult) and isinstance(a, int) and isinstance(b, int) and not isinstance(a, bool) and not isinstance(b, bool):
+                    return ast.Constant(value=a * b)
+            except Exception:
+                return n
+        return n
+
+    def visit_JoinedStr(self, n):
+        self.generic_visit(n)
+        parts = []
+        for v in n.values:
+            if isinstance(v, ast.Constant) and isinstance(v.value, str):
+                parts.append(v.value)
+            elif isinstance(v, ast.FormattedValue) and isinstance(v.value, ast.Constant) and v.format_spec is None and v.conversion == -1 \
+                    and isinstance(v.value.value, (str, int)) and not isinstance(v.value.value, bool):
+                parts.append(str(v.value.value))
+            else:
+                return n
+        return ast.Constant(value="".join(parts))
+
     def visit_Compare(self, n):
         self.generic_visit(n)
+        if len(n.ops) == 1 and isinstance(n.ops[0], (ast.In, ast.NotIn)) and _constlike(n.left) and isinstance(n.comparators[0], (ast.Dict, ast.List, ast.Tuple, ast.Set)):
+            c = n.comparators[0]
+            keys = c.keys if isinstance(c, ast.Dict) else c.elts
+            if all(k is not None and _constlike(k) for k in keys):
+                hit = norm(n.left) in {norm(k) for k in keys}
+                return ast.Constant(value=hit if isinstance(n.ops[0], ast.In) else not hit)
         if len(n.ops) == 1 and _constlike(n.left) and _constlike(n.comparators[0]) and isinstance(n.ops[0], (ast.Eq, ast.NotEq, ast.Is, ast.IsNot)):
             a, b = n.left, n.comparators[0]
             if isinstance(a, ast.Constant) and isinstance(b, ast.Constant):
